@@ -66,4 +66,5 @@ def main(tier):
     chk.run("R-EARLYASSERT", V.earlyassert, cx.repo, floor=250)
     chk.run("R-CONSTNONE", V.constnone, cx.repo, floor=2)
     chk.run("R-ATTRAGREE", V.attragree, cx.repo, floor=5)
+    chk.run("R-PRECOND", FL.precond, cx.repo, floor=3)
     return chk.finish()
